@@ -711,8 +711,8 @@ def run(ctx):
         "mutated and encoded headers (parsed reader state and error class compared); termination is proved; the "
         "parse-after-serialise round trip is proved for plain headers (single-coder folders, attributes without External "
         "byte or absent), composed into C10_7z_members_exact_from_bytes; the Coq serialiser is tied to the Python writer by a "
-        "differential run; encoded headers and the External-byte attribute dialect are covered by the correspondence only; "
-        "the harness's writer serialised (writer validated against libarchive 3.8); struct.unpack and zlib.crc32 are oracles",
+        "differential run; encoded headers, multi-coder folders and the External-byte attribute dialect are covered by the "
+        "correspondence only; the Python writer is validated against libarchive 3.8; struct.unpack and zlib.crc32 are oracles",
         "the temporary directory of the 7z path is modelled as a name->bytes map (path confinement is C09)",
     ]
     ctx.assumptions += ["member names are normalised relative POSIX paths (C09 covers hostile names)",
@@ -1154,6 +1154,11 @@ META = {
                   "table routes each signature to the right handler and tar mode.  Refutations (old 7z extractall with >= 2 "
                   "folders, missing SubStreamsInfo, corrupt ZIP member aborting, 7z empty files dropped, corrupt compressed "
                   "7z folder aborting, TAR magic shadowed by a member name) are proved with witnesses and replayed.",
-    "level_note": "Trusted: Coq kernel+VM; G-dump printer; hand-written model tied by differential runs; 7z header byte "
-                  "parsing, lzma/zipfile/tarfile and the member extractors are oracles; temp-dir modelled as a map.",
+    "level_note": "Trusted: Coq kernel+VM; G-dump printer; hand-written models tied by differential runs. The 7z byte-level "
+                  "header parser is modelled and proved terminating; its round trip with the writer (Coq serialiser == Python "
+                  "writer, differential) gives C10_7z_members_exact_from_bytes for plain headers with single-coder folders. "
+                  "Outside the theorems (correspondence only): encoded headers (need the lzma oracle to be a codec pair), "
+                  "multi-coder folders with bind pairs, the External-byte attribute dialect (the implementation does not read "
+                  "that byte), real password-protected/damaged member documents (third-party extractors: property oracle only). "
+                  "lzma/zipfile/tarfile/zlib.crc32/struct and the member extractors are oracles; temp-dir modelled as a map.",
 }
